@@ -17,6 +17,9 @@
 // (module `tfu` of the slice, glob-imported).  No assumption comes with the copied text (open spec functions only).
 // The last block ("the whole-tour case of remove_segment") is NOT copied: depots_around, clip and the lemmas that carry
 // tfu_pre / has_service / svc_filter / un_sum / the moved activities from the removed nodes to the nodes of the whole tour.
+// The block after it ("CLOSURE") is NOT copied either: the induction step of C10 / C09 / C11 -- the result of remove_segment
+// satisfies rs_ok again -- proved from the effect clauses of the contract (rs_effect): so_* (sched_ok in groups), listing_exact
+// (premise A-listing), listing_follows, listings_kept, lemma_closure_* and their helpers (lemma_first_pos: text of slices/admission.vs).
 use vstd::std_specs::cmp::OrdSpec;
 
 // A-display: `{}` of a Segment (hand written Display impl of the repository; a no-op outside verus!)
@@ -1063,4 +1066,703 @@ pub proof fn lemma_whole_tour_case(s: &Schedule, segment: Segment, v: VehicleIdx
     lemma_rd_formations_around(s, v, m, lo);
     lemma_rd_unserved_around(s, v, m, lo);
     lemma_rd_trips_around(s, v, m, lo);
+}
+
+// =====================================================================================================
+// CLOSURE (C10 / C09 / C11 induction step): the result of remove_segment satisfies the schedule-invariant
+// bundle `rs_ok` again.  NOT copied: vocabulary and lemmas of this slice.  Everything is proved from the EFFECT
+// clauses of the contract of remove_segment (bundled in `rs_effect`, text of the tagged postconditions), so the lemmas
+// below read "contract of remove_segment |- closure".  No assumption is introduced (open spec functions, proved lemmas).
+// =====================================================================================================
+impl Schedule {
+    // ---- the conjuncts of sched_ok (env/schedule_shim.vs), grouped; text unchanged: lemma_sched_ok_split shows that
+    // sched_ok is exactly their conjunction ----
+    /// the network is well-formed, its depot table matches its depot nodes (the network is never modified)
+    pub open spec fn so_network(&self) -> bool { self.network.wf() && depots_ok(&self.network) }
+    /// "the vehicle listing is duplicate-free and matches the stored tours" (+ magnitude: at most 2^17 vehicles)
+    pub open spec fn so_listing(&self) -> bool {
+        let vs = sched_vehicles(self);
+        &&& vs.no_duplicates()
+        &&& vs.len() <= max_vehicles()
+        &&& forall|v: VehicleIdx| #[trigger] vs.contains(v) <==> self.tours@.contains_key(v)
+    }
+    /// every stored tour is the valid tour of a real vehicle whose type has a rotation-cycle structure that holds it
+    pub open spec fn so_vehicles(&self) -> bool { forall|v: VehicleIdx| #[trigger] self.tours@.contains_key(v) ==> self.vehicle_ok(v) }
+    /// C09: the schedule's costs cover the costs of its tours
+    pub open spec fn so_costs_cover(&self) -> bool { tours_costs(self.tours@, sched_vehicles(self)) <= self.costs }
+    /// magnitude: costs <= 2^61
+    pub open spec fn so_costs_small(&self) -> bool { self.costs <= sched_cost_bound() }
+
+    /// THE EFFECT CLAUSES of the contract of remove_segment for a result s1 (the text of the tagged postconditions of
+    /// slices/remove_segment.vs for `r == Ok(s1)`) that the closure proof builds on
+    pub open spec fn rs_effect(&self, segment: Segment, v: VehicleIdx, s1: &Schedule) -> bool {
+        let removed = self.removed_nodes(segment, v);
+        &&& self.removes(segment, v)
+        &&& s1.network == self.network
+        &&& self.whole_tour(segment, v) ==> {
+                &&& self.vehicle_gone(v, s1)
+                &&& self.others_untouched(v, s1)
+                &&& s1.costs == self.costs - self.tours@[v].costs
+            }
+        &&& !self.whole_tour(segment, v) ==> {
+                &&& s1.vehicles@ == self.vehicles@ && s1.vehicle_ids_grouped_and_sorted@ == self.vehicle_ids_grouped_and_sorted@
+                &&& self.provider_shrunk(segment, v, s1.tours@)
+                &&& self.other_tours_untouched(v, s1.tours@)
+                &&& s1.costs == self.costs + s1.tours@[v].costs - self.tours@[v].costs
+            }
+        &&& self.formations_follow(removed, v, s1.train_formations@)
+        &&& s1.ids_ok()
+        &&& usage_exact(s1.depot_usage@, &self.network, s1.vehicles@, s1.tours@)
+        &&& self.transitions_follow(v, s1.next_period_transitions@, s1.maintenance_violation, s1.vehicles@, s1.tours@)
+    }
+    /// what rs_effect says about the two maps that carry the vehicles (both cases): every other vehicle / tour is untouched; the
+    /// provider is gone (whole-tour case) or keeps its vehicle entry and has the shrunk tour (partial case)
+    pub open spec fn maps_follow(&self, segment: Segment, v: VehicleIdx, s1: &Schedule) -> bool {
+        &&& forall|u: VehicleIdx| u != v ==> (#[trigger] s1.tours@.contains_key(u) <==> self.tours@.contains_key(u))
+        &&& forall|u: VehicleIdx| u != v && self.tours@.contains_key(u) ==> #[trigger] s1.tours@[u] == self.tours@[u]
+        &&& forall|u: VehicleIdx| u != v ==> (#[trigger] s1.vehicles@.contains_key(u) <==> self.vehicles@.contains_key(u))
+        &&& forall|u: VehicleIdx| u != v && self.vehicles@.contains_key(u) ==> #[trigger] s1.vehicles@[u] == self.vehicles@[u]
+        &&& self.whole_tour(segment, v) ==> !s1.tours@.contains_key(v) && !s1.vehicles@.contains_key(v)
+        &&& !self.whole_tour(segment, v) ==> s1.tours@.contains_key(v) && s1.vehicles@.contains_key(v) && s1.vehicles@[v] == self.vehicles@[v]
+    }
+    /// a SUFFICIENT condition for listing_exact(result) in terms of the old listing: the listing of the result follows the grouped
+    /// id lists, whose change IS proved -- unchanged in the partial case (vehicle_set_unchanged: network and grouped id lists are
+    /// the same), one occurrence of the id taken out in the whole-tour case (vehicle_gone: exactly one occurrence leaves the list
+    /// of the vehicle's type; others_untouched: the lists of the other types are the same)
+    pub open spec fn listing_follows(&self, segment: Segment, v: VehicleIdx, s1: &Schedule) -> bool {
+        if self.whole_tour(segment, v) { ids_lose(sched_vehicles(self), sched_vehicles(s1), v) }
+        else { sched_vehicles(s1) == sched_vehicles(self) }
+    }
+    /// C10 listings, vehicle by vehicle (the whole-tour-case precondition `listed_ok` of the NEXT modification): every
+    /// vehicle that stays and was listed (its type has an id list, sorted, holding the id) still is
+    pub open spec fn listings_kept(&self, s1: &Schedule) -> bool {
+        forall|u: VehicleIdx| self.vehicles@.contains_key(u) && self.listed_ok(u) && #[trigger] s1.vehicles@.contains_key(u) ==> s1.listed_ok(u)
+    }
+}
+/// A-listing (the PREMISE of the listing / costs-cover clauses of the closure, not an assumption of the slice): the two conjuncts of
+/// sched_ok that say what the listing IS -- duplicate-free, lists exactly the vehicles that have a tour.  The vehicle listing
+/// `sched_vehicles` is an UNINTERPRETED function of the schedule (env/schedule_shim.vs: "per vehicle type of the network, the
+/// type's sorted id list"), so nothing about the listing of the RESULT follows from the effect clauses; these two conjuncts are
+/// therefore the premise, everything else in sched_ok is proved.  (Same text as rd_listing_exact of env/dummy_ops_shim.vs.)
+pub open spec fn listing_exact(s: &Schedule) -> bool {
+    let vs = sched_vehicles(s);
+    &&& vs.no_duplicates()
+    &&& forall|v: VehicleIdx| #[trigger] vs.contains(v) <==> s.tours@.contains_key(v)
+}
+/// sched_ok is the conjunction of its five groups (nothing dropped, nothing weakened)
+pub proof fn lemma_sched_ok_split(s: &Schedule)
+    ensures s.sched_ok() <==> (s.so_network() && s.so_listing() && s.so_vehicles() && s.so_costs_cover() && s.so_costs_small()),
+{
+}
+
+/// [text of slices/admission.vs]
+pub proof fn lemma_first_pos(s: Seq<Vehicle>, v: VehicleIdx)
+    ensures
+        0 <= first_pos(s, v) <= s.len(),
+        forall|i: int| 0 <= i < first_pos(s, v) ==> (#[trigger] s[i]).idx != v,
+        first_pos(s, v) < s.len() ==> s[first_pos(s, v)].idx == v,
+        has_vehicle(s, v) <==> first_pos(s, v) < s.len(),
+    decreases s.len(),
+{
+    if s.len() == 0 {
+    } else if s[0].idx == v {
+    } else {
+        let t = s.drop_first();
+        lemma_first_pos(t, v);
+        assert forall|i: int| 0 <= i < first_pos(s, v) implies (#[trigger] s[i]).idx != v by {
+            if i > 0 { assert(t[i - 1] == s[i]); }
+        }
+        if first_pos(s, v) < s.len() { assert(t[first_pos(t, v)] == s[first_pos(s, v)]); }
+        if has_vehicle(s, v) {
+            let i = choose|i: int| 0 <= i < s.len() && #[trigger] s[i].idx == v;
+            assert(t[i - 1].idx == v);
+        }
+    }
+}
+/// "removals keep the order": when vehicle v leaves a formation, every other vehicle of the formation stays
+pub proof fn lemma_has_vehicle_remove(f: Seq<Vehicle>, v: VehicleIdx, u: VehicleIdx)
+    requires has_vehicle(f, v), has_vehicle(f, u), u != v,
+    ensures has_vehicle(f.remove(first_pos(f, v)), u),
+{
+    lemma_first_pos(f, v);
+    let p = first_pos(f, v);
+    let d = f.remove(p);
+    let i = choose|i: int| 0 <= i < f.len() && #[trigger] f[i].idx == u;
+    if i < p { assert(d[i].idx == u); } else { assert(d[i - 1] == f[i]); assert(d[i - 1].idx == u); }
+}
+
+/// the range of a removable segment
+pub proof fn lemma_seg_range(s: &Schedule, segment: Segment, v: VehicleIdx)
+    requires s.removes(segment, v),
+    ensures 0 <= s.seg_lo(segment, v) <= s.seg_hi(segment, v) < s.tours@[v].len(),
+{
+}
+/// the kept nodes: how many, which
+pub proof fn lemma_kept(t: &Tour, lo: int, hi: int)
+    requires t.wf(), 0 <= lo <= hi < t.len(),
+    ensures
+        t.rest(lo, hi + 1).len() == lo + t.len() - (hi + 1),
+        forall|i: int| 0 <= i < lo ==> #[trigger] t.rest(lo, hi + 1)[i] == t.nodes@[i],
+        forall|i: int| lo <= i < lo + t.len() - (hi + 1) ==> #[trigger] t.rest(lo, hi + 1)[i] == t.nodes@[i + (hi + 1 - lo)],
+        // a kept node is none of the removed ones (the nodes of a tour are pairwise distinct)
+        forall|j: int| 0 <= j < t.len() && !(lo <= j <= hi) ==> !t.mid(lo, hi + 1).contains(#[trigger] t.nodes@[j]),
+{
+    reveal(Tour::mid); reveal(Tour::rest);
+    let m = t.mid(lo, hi + 1);
+    assert forall|j: int| 0 <= j < t.len() && !(lo <= j <= hi) implies !m.contains(#[trigger] t.nodes@[j]) by {
+        if m.contains(t.nodes@[j]) {
+            let k = choose|k: int| 0 <= k < m.len() && m[k] == t.nodes@[j];
+            assert(m[k] == t.nodes@[lo + k]);
+            lemma_tour_distinct(t, j, lo + k);
+        }
+    }
+}
+/// every removed activity is an inner node of the provider's tour: its formation lists the provider (formations_ok)
+pub proof fn lemma_removed_listed(s: &Schedule, segment: Segment, v: VehicleIdx)
+    requires s.rs_ok(), s.removes(segment, v),
+    ensures
+        forall|n: NodeIdx| moved_activity(&s.network, s.removed_nodes(segment, v), n) ==> has_vehicle((#[trigger] s.train_formations@[n]).formation@, v),
+{
+    lemma_provider(s, v);
+    let t0 = s.tours@[v];
+    let lo = s.seg_lo(segment, v);
+    let hi = s.seg_hi(segment, v);
+    let removed = s.removed_nodes(segment, v);
+    lemma_seg_range(s, segment, v);
+    lemma_removed_block(&t0, lo, hi);
+    assert forall|n: NodeIdx| moved_activity(&s.network, removed, n) implies has_vehicle((#[trigger] s.train_formations@[n]).formation@, v) by {
+        let i = choose|i: int| 0 <= i < removed.len() && removed[i] == n;
+        assert(removed[i] == t0.nodes@[lo + i]);
+        lemma_tour_kinds(&t0, lo + i);
+        assert(0 < lo + i < t0.nodes@.len() - 1);
+        assert(has_vehicle(s.train_formations@[s.tours@[v].nodes@[lo + i]].formation@, v));
+    }
+}
+
+/// the effect clauses, read as facts about the maps `vehicles` and `tours`
+pub proof fn lemma_effect_maps(s: &Schedule, segment: Segment, v: VehicleIdx, s1: &Schedule)
+    requires s.rs_ok(), s.rs_effect(segment, v, s1),
+    ensures
+        s.maps_follow(segment, v, s1),
+        forall|u: VehicleIdx| #[trigger] s1.vehicles@.contains_key(u) ==> s.vehicles@.contains_key(u) && s1.type_of(u) == s.type_of(u) && s1.vehicles@[u] == s.vehicles@[u],
+        forall|u: VehicleIdx| #[trigger] s1.tours@.contains_key(u) ==> s.tours@.contains_key(u) && s1.vehicles@.contains_key(u),
+{
+    hide(Schedule::rs_ok);
+    hide(Schedule::transitions_follow);
+    hide(Schedule::formations_follow);
+    hide(usage_exact);
+    hide(usage_exact_for);
+    hide(Schedule::seg_removable);
+    hide(Schedule::whole_tour);
+    hide(Schedule::provider_shrunk);
+    hide(Schedule::real_tour_ok);
+    hide(sorted_cmp);
+    hide(ids_lose);
+    lemma_provider(s, v);
+    assert(s.ids_ok() && s1.ids_ok());
+    if s.whole_tour(segment, v) {
+        assert(s1.vehicles@ == s.vehicles@.remove(v) && s1.tours@ == s.tours@.remove(v));
+    } else {
+        assert(s1.vehicles@ == s.vehicles@ && s.other_tours_untouched(v, s1.tours@));
+        reveal(Schedule::provider_shrunk);
+    }
+}
+
+// ---- sched_ok: network, vehicle_ok ----------------------------------------------------------------------
+/// CLOSURE, sched_ok (network; every stored tour is a valid tour of a real vehicle held by a consistent rotation-cycle structure)
+pub proof fn lemma_closure_vehicles(s: &Schedule, segment: Segment, v: VehicleIdx, s1: &Schedule)
+    requires s.rs_ok(), s.rs_effect(segment, v, s1),
+    ensures s1.so_network(), s1.so_vehicles(),
+{
+    hide(Schedule::formations_follow);
+    hide(usage_exact);
+    lemma_provider(s, v);
+    lemma_effect_maps(s, segment, v, s1);
+    lemma_seg_range(s, segment, v);
+    let t0 = s.tours@[v];
+    lemma_kept(&t0, s.seg_lo(segment, v), s.seg_hi(segment, v));
+    let trs1 = s1.next_period_transitions@;
+    assert forall|u: VehicleIdx| #[trigger] s1.tours@.contains_key(u) implies s1.vehicle_ok(u) by {
+        assert(s.tours@.contains_key(u) && s1.vehicles@.contains_key(u));
+        assert(s.vehicle_ok(u));
+        let ty = s1.type_of(u);
+        assert(ty == s.type_of(u));
+        assert(s.next_period_transitions@.contains_key(ty));
+        assert(trs1.contains_key(ty));
+        assert(trs1[ty].wf(&s.network, s1.tours@));
+        assert(trs1[ty].has_vehicle(u));
+        let t = s1.tours@[u];
+        if u != v {
+            assert(t == s.tours@[u]);
+        } else {
+            assert(!s.whole_tour(segment, v));
+            assert(s.provider_shrunk(segment, v, s1.tours@));
+            assert(t.nodes@ == s.kept_nodes(segment, v));
+            assert(tour_len_ok(t.nodes@));
+        }
+    }
+}
+
+// ---- formations_ok -----------------------------------------------------------------------------------------
+/// CLOSURE, formations_ok: every activity has a formation; the formation of every inner node of a tour lists the vehicle
+pub proof fn lemma_closure_formations(s: &Schedule, segment: Segment, v: VehicleIdx, s1: &Schedule)
+    requires s.rs_ok(), s.rs_effect(segment, v, s1),
+    ensures s1.formations_ok(),
+{
+    hide(Schedule::transitions_follow);
+    hide(usage_exact);
+    lemma_provider(s, v);
+    lemma_effect_maps(s, segment, v, s1);
+    lemma_seg_range(s, segment, v);
+    lemma_removed_listed(s, segment, v);
+    let t0 = s.tours@[v];
+    let lo = s.seg_lo(segment, v);
+    let hi = s.seg_hi(segment, v);
+    let removed = s.removed_nodes(segment, v);
+    let tf0 = s.train_formations@;
+    let tf1 = s1.train_formations@;
+    lemma_kept(&t0, lo, hi);
+    assert forall|n: NodeIdx| s1.network.has(n) && s1.network.sp_node(n).sp_is_activity() implies #[trigger] tf1.contains_key(n) by {
+        assert(tf0.contains_key(n));
+    }
+    assert forall|u: VehicleIdx, i: int| s1.tours@.contains_key(u) && 0 < i < s1.tours@[u].nodes@.len() - 1
+        implies has_vehicle(tf1[#[trigger] s1.tours@[u].nodes@[i]].formation@, u) by {
+        let n = s1.tours@[u].nodes@[i];
+        if u != v {
+            assert(s.tours@.contains_key(u) && s1.tours@[u] == s.tours@[u]);
+            assert(has_vehicle(tf0[s.tours@[u].nodes@[i]].formation@, u));
+            if moved_activity(&s.network, removed, n) {
+                assert(has_vehicle(tf0[n].formation@, v));
+                lemma_has_vehicle_remove(tf0[n].formation@, v, u);
+            }
+        } else {
+            assert(!s.whole_tour(segment, v));
+            assert(s1.tours@[v].nodes@ == s.kept_nodes(segment, v));
+            let j = if i < lo { i } else { i + (hi + 1 - lo) };
+            assert(s.kept_nodes(segment, v)[i] == t0.nodes@[j]);
+            assert(0 < j < t0.nodes@.len() - 1 && !(lo <= j <= hi));
+            assert(has_vehicle(tf0[s.tours@[v].nodes@[j]].formation@, v));
+            assert(!removed.contains(t0.nodes@[j]));
+            assert(!moved_activity(&s.network, removed, n));
+        }
+    }
+}
+
+// ---- transitions_ok ----------------------------------------------------------------------------------------
+/// the vehicles in the first k cycles, one after the other
+pub open spec fn flat_cycles(cs: Seq<TransitionCycle>, k: int) -> Seq<VehicleIdx>
+    decreases k,
+{
+    if k <= 0 { Seq::empty() } else { flat_cycles(cs, k - 1) + cs[k - 1].cycle@ }
+}
+/// x is a vehicle of one of the first k cycles
+pub open spec fn in_cycles(t: TView, k: int, x: VehicleIdx) -> bool {
+    exists|i: int, a: int| 0 <= i < k && 0 <= a < t.cyc(i).len() && #[trigger] t.cyc(i)[a] == x
+}
+pub open spec fn lens_upto(cs: Seq<TransitionCycle>, k: int) -> int
+    decreases k,
+{
+    if k <= 0 { 0 } else { lens_upto(cs, k - 1) + cs[k - 1].cycle@.len() }
+}
+pub proof fn lemma_lens_upto(cs: Seq<TransitionCycle>, k: int)
+    requires 0 <= k <= cs.len(),
+    ensures lens_upto(cs, k) == sum_seq(lens_of(cs.take(k))),
+    decreases k,
+{
+    if k > 0 {
+        lemma_lens_upto(cs, k - 1);
+        assert(lens_of(cs.take(k)).drop_last() =~= lens_of(cs.take(k - 1)));
+        assert(lens_of(cs.take(k)).last() == cs[k - 1].cycle@.len());
+    } else {
+        assert(lens_of(cs.take(0)).len() == 0);
+    }
+}
+/// the cycles of a rotation-cycle structure are duplicate-free and pairwise disjoint: listed one after the other they form a
+/// duplicate-free sequence of total_len vehicles
+pub proof fn lemma_flat_cycles(t: TView, k: int)
+    requires t.wf_cycles(), 0 <= k <= t.n(),
+    ensures
+        flat_cycles(t.cycles, k).len() == lens_upto(t.cycles, k),
+        flat_cycles(t.cycles, k).no_duplicates(),
+        forall|x: VehicleIdx| #[trigger] flat_cycles(t.cycles, k).contains(x) <==> in_cycles(t, k, x),
+    decreases k,
+{
+    if k > 0 {
+        lemma_flat_cycles(t, k - 1);
+        let a = flat_cycles(t.cycles, k - 1);
+        let c = t.cyc(k - 1);
+        let f = flat_cycles(t.cycles, k);
+        assert(f == a + c);
+        assert(c.no_duplicates());
+        assert forall|i: int, j: int| 0 <= i < a.len() && 0 <= j < c.len() implies a[i] != c[j] by {
+            assert(a.contains(a[i]));
+            assert(in_cycles(t, k - 1, a[i]));
+            let (i0, a0) = choose|i0: int, a0: int| 0 <= i0 < k - 1 && 0 <= a0 < t.cyc(i0).len() && #[trigger] t.cyc(i0)[a0] == a[i];
+            assert(t.cyc(i0)[a0] != t.cyc(k - 1)[j]);
+        }
+        vstd::seq_lib::lemma_no_dup_in_concat(a, c);
+        assert forall|x: VehicleIdx| #[trigger] f.contains(x) <==> in_cycles(t, k, x) by {
+            if f.contains(x) {
+                let p = choose|p: int| 0 <= p < f.len() && f[p] == x;
+                if p < a.len() {
+                    assert(a[p] == x);
+                    assert(a.contains(x));
+                    assert(in_cycles(t, k - 1, x));
+                    let (i0, a0) = choose|i0: int, a0: int| 0 <= i0 < k - 1 && 0 <= a0 < t.cyc(i0).len() && #[trigger] t.cyc(i0)[a0] == x;
+                    assert(0 <= i0 < k && t.cyc(i0)[a0] == x);
+                } else {
+                    assert(c[p - a.len()] == x);
+                    assert(t.cyc(k - 1)[p - a.len()] == x);
+                }
+            }
+            if in_cycles(t, k, x) {
+                let (i0, a0) = choose|i0: int, a0: int| 0 <= i0 < k && 0 <= a0 < t.cyc(i0).len() && #[trigger] t.cyc(i0)[a0] == x;
+                if i0 < k - 1 {
+                    assert(in_cycles(t, k - 1, x));
+                    assert(a.contains(x));
+                    let p = choose|p: int| 0 <= p < a.len() && a[p] == x;
+                    assert(f[p] == x);
+                } else {
+                    assert(f[a.len() + a0] == x);
+                }
+            }
+        }
+    }
+}
+/// magnitude (fewer than 2^17 vehicles): a rotation-cycle structure that holds only vehicles of another one is not longer
+pub proof fn lemma_total_len_le(t1: TView, t0: TView)
+    requires
+        t1.wf_cycles(), t1.wf_lookup(), t0.wf_cycles(), t0.wf_lookup(),
+        forall|x: VehicleIdx| #[trigger] t1.lookup.contains_key(x) ==> t0.lookup.contains_key(x),
+    ensures
+        t1.total_len() <= t0.total_len(),
+{
+    let f1 = flat_cycles(t1.cycles, t1.n());
+    let f0 = flat_cycles(t0.cycles, t0.n());
+    lemma_flat_cycles(t1, t1.n());
+    lemma_flat_cycles(t0, t0.n());
+    lemma_lens_upto(t1.cycles, t1.n());
+    lemma_lens_upto(t0.cycles, t0.n());
+    assert(t1.cycles.take(t1.n()) =~= t1.cycles);
+    assert(t0.cycles.take(t0.n()) =~= t0.cycles);
+    assert forall|x: VehicleIdx| f1.contains(x) implies f0.contains(x) by {
+        assert(in_cycles(t1, t1.n(), x));
+        let (i1, a1) = choose|i1: int, a1: int| 0 <= i1 < t1.n() && 0 <= a1 < t1.cyc(i1).len() && #[trigger] t1.cyc(i1)[a1] == x;
+        assert(t1.lookup.contains_key(t1.cyc(i1)[a1]));
+        assert(t0.lookup.contains_key(x));
+        let c = t0.cyc(t0.cycle_of(x));
+        assert(c.contains(x));
+        let a0 = choose|a0: int| 0 <= a0 < c.len() && c[a0] == x;
+        assert(t0.cyc(t0.cycle_of(x))[a0] == x);
+        assert(in_cycles(t0, t0.n(), x));
+    }
+    f1.unique_seq_to_set();
+    f0.unique_seq_to_set();
+    assert(f1.to_set().subset_of(f0.to_set()));
+    vstd::set_lib::lemma_len_subset(f1.to_set(), f0.to_set());
+}
+/// CLOSURE, transitions_ok: one consistent rotation-cycle structure per vehicle type, holding exactly the vehicles of the type;
+/// the violation is their sum; fewer than 2^17 vehicles (no vehicle is added)
+pub proof fn lemma_closure_transitions(s: &Schedule, segment: Segment, v: VehicleIdx, s1: &Schedule)
+    requires s.rs_ok(), s.rs_effect(segment, v, s1),
+    ensures s1.transitions_ok(),
+{
+    hide(Schedule::formations_follow);
+    hide(usage_exact);
+    lemma_provider(s, v);
+    lemma_effect_maps(s, segment, v, s1);
+    let trs = s.next_period_transitions@;
+    let trs1 = s1.next_period_transitions@;
+    let vts = sched_types(s);
+    let ty = s.type_of(v);
+    assert(sched_types(s1) == vts);
+    assert(s.vehicle_ok(v));
+    assert(trs.contains_key(ty) && trs1.contains_key(ty));
+    assert(trs[ty].wf(&s.network, s.tours@) && trs1[ty].wf(&s.network, s1.tours@));
+    assert forall|x: VehicleIdx| #[trigger] trs1[ty]@.lookup.contains_key(x) implies trs[ty]@.lookup.contains_key(x) by {
+        assert(trs1[ty].has_vehicle(x));
+        assert(s1.vehicles@.contains_key(x) && vtype(s1.vehicles@[x]) == ty);
+        assert(s.vehicles@.contains_key(x) && s.type_of(x) == ty);
+        assert(trs[ty].has_vehicle(x));
+    }
+    lemma_total_len_le(trs1[ty]@, trs[ty]@);
+    let trs2 = trs.insert(ty, trs1[ty]);
+    assert forall|i: int| 0 <= i < vts.len() implies trs1[#[trigger] vts[i]] == trs2[vts[i]] by {
+        assert(vts.contains(vts[i]));
+        assert(trs.contains_key(vts[i]));
+        assert(trs1.contains_key(vts[i]));
+    }
+    lemma_type_sums_frame(trs1, trs2, vts);
+    lemma_type_sums_insert(trs, vts, ty, trs1[ty]);
+    assert forall|vt: VehicleTypeIdx| #[trigger] trs1.contains_key(vt) <==> vts.contains(vt) by {
+        assert(trs.contains_key(vt) <==> vts.contains(vt));
+    }
+    assert forall|vt: VehicleTypeIdx, u: VehicleIdx| #![trigger trs1[vt].has_vehicle(u)] trs1.contains_key(vt)
+        implies (trs1[vt].has_vehicle(u) <==> s1.vehicles@.contains_key(u) && s1.type_of(u) == vt) by {
+        assert(trs1[vt].has_vehicle(u) <==> (s1.vehicles@.contains_key(u) && vtype(s1.vehicles@[u]) == vt));
+    }
+}
+
+// ---- sched_ok: listing, costs --------------------------------------------------------------------------------
+/// the sum of the listed tours' costs when the tour of ONE listed vehicle is replaced
+pub proof fn lemma_pre_costs_update(t0: TourMap, t1: TourMap, vs: Seq<VehicleIdx>, p: int, k: int)
+    requires
+        vs.no_duplicates(), 0 <= p < vs.len(), 0 <= k <= vs.len(),
+        forall|j: int| 0 <= j < vs.len() && j != p ==> t1[#[trigger] vs[j]] == t0[vs[j]],
+    ensures
+        pre_costs(t1, vs, k) == pre_costs(t0, vs, k) + (if p < k { t1[vs[p]].costs as int - t0[vs[p]].costs as int } else { 0 }),
+    decreases k,
+{
+    if k > 0 { lemma_pre_costs_update(t0, t1, vs, p, k - 1); }
+}
+/// the sum of the listed tours' costs when ONE vehicle leaves the listing
+pub proof fn lemma_pre_costs_remove(t0: TourMap, t1: TourMap, vs: Seq<VehicleIdx>, p: int, k: int)
+    requires
+        0 <= p < vs.len(), 0 <= k <= vs.len() - 1,
+        forall|j: int| 0 <= j < vs.len() && j != p ==> t1[#[trigger] vs[j]] == t0[vs[j]],
+    ensures
+        pre_costs(t1, vs.remove(p), k) == (if k <= p { pre_costs(t0, vs, k) } else { pre_costs(t0, vs, k + 1) - t0[vs[p]].costs as int }),
+    decreases k,
+{
+    if k > 0 {
+        lemma_pre_costs_remove(t0, t1, vs, p, k - 1);
+        let d = vs.remove(p);
+        if k - 1 < p { assert(d[k - 1] == vs[k - 1]); } else { assert(d[k - 1] == vs[k]); }
+        assert(pre_costs(t1, d, k) == pre_costs(t1, d, k - 1) + t1[d[k - 1]].costs as int);
+        assert(pre_costs(t0, vs, k + 1) == pre_costs(t0, vs, k) + t0[vs[k]].costs as int);
+        assert(pre_costs(t0, vs, k) == pre_costs(t0, vs, k - 1) + t0[vs[k - 1]].costs as int);
+    }
+}
+/// the sum over the first k listed vehicles only depends on the first k entries of the listing
+pub proof fn lemma_pre_costs_prefix(t: TourMap, a: Seq<VehicleIdx>, b: Seq<VehicleIdx>, k: int)
+    requires 0 <= k <= a.len(), k <= b.len(), forall|j: int| 0 <= j < k ==> #[trigger] a[j] == b[j],
+    ensures pre_costs(t, a, k) == pre_costs(t, b, k),
+    decreases k,
+{
+    if k > 0 { lemma_pre_costs_prefix(t, a, b, k - 1); }
+}
+/// the sum of the listed tours' costs does not depend on the order of a duplicate-free listing
+pub proof fn lemma_pre_costs_perm(t: TourMap, a: Seq<VehicleIdx>, b: Seq<VehicleIdx>)
+    requires a.no_duplicates(), b.no_duplicates(), forall|x: VehicleIdx| a.contains(x) <==> b.contains(x),
+    ensures a.len() == b.len(), pre_costs(t, a, a.len() as int) == pre_costs(t, b, b.len() as int),
+    decreases a.len(),
+{
+    if a.len() == 0 {
+        if b.len() > 0 { assert(b.contains(b[0])); }
+    } else {
+        let n = a.len() as int;
+        let m = b.len() as int;
+        let x = a[n - 1];
+        assert(a.contains(x));
+        let p = choose|p: int| 0 <= p < b.len() && b[p] == x;
+        let a1 = a.drop_last();
+        let b1 = b.remove(p);
+        lemma_remove_contains(b, p);
+        assert(a1 =~= a.remove(n - 1));
+        lemma_remove_contains(a, n - 1);
+        lemma_pre_costs_perm(t, a1, b1);
+        lemma_pre_costs_prefix(t, a, a1, n - 1);
+        lemma_pre_costs_remove(t, t, b, p, m - 1);
+        assert(pre_costs(t, a, n) == pre_costs(t, a, n - 1) + t[a[n - 1]].costs as int);
+        assert(pre_costs(t, b, m) == pre_costs(t, b, m - 1) + t[b[m - 1]].costs as int);
+    }
+}
+/// A-listing holds if the listing of the result follows the grouped id lists (listing_follows)
+pub proof fn lemma_listing_follows(s: &Schedule, segment: Segment, v: VehicleIdx, s1: &Schedule)
+    requires s.rs_ok(), s.rs_effect(segment, v, s1), s.listing_follows(segment, v, s1),
+    ensures listing_exact(s1),
+{
+    hide(Schedule::transitions_follow);
+    hide(Schedule::formations_follow);
+    hide(usage_exact);
+    lemma_provider(s, v);
+    lemma_effect_maps(s, segment, v, s1);
+    let vs = sched_vehicles(s);
+    let vs1 = sched_vehicles(s1);
+    assert(vs.contains(v));
+    if s.whole_tour(segment, v) {
+        let p = choose|p: int| 0 <= p < vs.len() && vs[p] == v && vs1 == #[trigger] vs.remove(p);
+        lemma_remove_contains(vs, p);
+    }
+    assert forall|u: VehicleIdx| #[trigger] vs1.contains(u) <==> s1.tours@.contains_key(u) by {
+        assert(vs.contains(u) <==> s.tours@.contains_key(u));
+    }
+}
+/// the listed tours' costs after one step: the duplicate-free listing vs1 lists the vehicles of the duplicate-free listing vs --
+/// but v if `gone` --, the tours of all vehicles but v are the same
+pub proof fn lemma_costs_step(t0: TourMap, t1: TourMap, vs: Seq<VehicleIdx>, vs1: Seq<VehicleIdx>, v: VehicleIdx, gone: bool)
+    requires
+        vs.no_duplicates(), vs1.no_duplicates(), vs.contains(v),
+        forall|u: VehicleIdx| u != v && #[trigger] vs.contains(u) ==> t1[u] == t0[u],
+        forall|u: VehicleIdx| #[trigger] vs1.contains(u) <==> vs.contains(u) && !(gone && u == v),
+    ensures
+        gone ==> vs1.len() == vs.len() - 1 && tours_costs(t1, vs1) == tours_costs(t0, vs) - t0[v].costs,
+        !gone ==> vs1.len() == vs.len() && tours_costs(t1, vs1) == tours_costs(t0, vs) - t0[v].costs + t1[v].costs,
+{
+    let n = vs.len() as int;
+    let p = choose|p: int| 0 <= p < vs.len() && vs[p] == v;
+    assert forall|j: int| 0 <= j < vs.len() && j != p implies t1[#[trigger] vs[j]] == t0[vs[j]] by {
+        assert(vs[j] != vs[p]);
+        assert(vs.contains(vs[j]));
+    }
+    if gone {
+        let d = vs.remove(p);
+        lemma_remove_contains(vs, p);
+        lemma_pre_costs_perm(t1, vs1, d);
+        lemma_pre_costs_remove(t0, t1, vs, p, n - 1);
+        if n - 1 <= p { assert(p == n - 1); }
+        assert(pre_costs(t0, vs, n) == pre_costs(t0, vs, n - 1) + t0[vs[n - 1]].costs as int);
+    } else {
+        lemma_pre_costs_perm(t1, vs1, vs);
+        lemma_pre_costs_update(t0, t1, vs, p, n);
+    }
+}
+/// CLOSURE, sched_ok (listing, C09 costs) UNDER the premise A-listing (listing_exact: the listing of the result is duplicate-free
+/// and matches the stored tours): at most 2^17 vehicles, the costs cover the tours' costs
+pub proof fn lemma_closure_listing(s: &Schedule, segment: Segment, v: VehicleIdx, s1: &Schedule)
+    requires s.rs_ok(), s.rs_effect(segment, v, s1), listing_exact(s1),
+    ensures s1.so_listing(), s1.so_costs_cover(),
+{
+    hide(Schedule::transitions_follow);
+    hide(Schedule::formations_follow);
+    hide(Schedule::formations_ok);
+    hide(Schedule::transitions_ok);
+    hide(Schedule::vehicle_ok);
+    hide(Schedule::provider_shrunk);
+    hide(Schedule::vehicle_gone);
+    hide(Schedule::seg_removable);
+    hide(Schedule::real_tour_ok);
+    hide(usage_exact);
+    hide(usage_exact_for);
+    hide(ids_valid);
+    hide(sorted_cmp);
+    hide(depots_ok);
+    lemma_provider(s, v);
+    lemma_effect_maps(s, segment, v, s1);
+    let vs = sched_vehicles(s);
+    let vs1 = sched_vehicles(s1);
+    let gone = s.whole_tour(segment, v);
+    assert(vs.contains(v));
+    assert forall|u: VehicleIdx| u != v && #[trigger] vs.contains(u) implies s1.tours@[u] == s.tours@[u] by {
+        assert(s.tours@.contains_key(u));
+    }
+    assert forall|u: VehicleIdx| #[trigger] vs1.contains(u) <==> vs.contains(u) && !(gone && u == v) by {
+        assert(vs.contains(u) <==> s.tours@.contains_key(u));
+        assert(vs1.contains(u) <==> s1.tours@.contains_key(u));
+    }
+    lemma_costs_step(s.tours@, s1.tours@, vs, vs1, v, gone);
+}
+
+// ---- listed_ok, vehicle by vehicle -------------------------------------------------------------------------
+/// an id list that loses one occurrence of v keeps every other id
+pub proof fn lemma_lose_keeps(l: Seq<VehicleIdx>, l1: Seq<VehicleIdx>, v: VehicleIdx, u: VehicleIdx)
+    requires ids_lose(l, l1, v), l.contains(u), u != v,
+    ensures l1.contains(u),
+{
+    let p = choose|p: int| 0 <= p < l.len() && l[p] == v && l1 == #[trigger] l.remove(p);
+    let i = choose|i: int| 0 <= i < l.len() && l[i] == u;
+    if i < p { assert(l.remove(p)[i] == u); } else { assert(l.remove(p)[i - 1] == u); }
+}
+/// C10 listings: the id lists keep listing (sorted) every vehicle that stays
+pub proof fn lemma_closure_listed(s: &Schedule, segment: Segment, v: VehicleIdx, s1: &Schedule)
+    requires s.rs_ok(), s.rs_effect(segment, v, s1),
+    ensures s.listings_kept(s1),
+{
+    hide(Schedule::rs_ok);
+    hide(Schedule::transitions_follow);
+    hide(Schedule::formations_follow);
+    hide(Schedule::maps_follow);
+    hide(Schedule::provider_shrunk);
+    hide(Schedule::other_tours_untouched);
+    hide(Schedule::seg_removable);
+    hide(Schedule::whole_tour);
+    hide(Schedule::real_tour_ok);
+    hide(usage_exact);
+    hide(usage_exact_for);
+    hide(ids_valid);
+    hide(ids_lose);
+    hide(sorted_cmp);
+    lemma_provider(s, v);
+    lemma_effect_maps(s, segment, v, s1);
+    let ty = s.type_of(v);
+    let g0 = s.vehicle_ids_grouped_and_sorted@;
+    let g1 = s1.vehicle_ids_grouped_and_sorted@;
+    assert forall|u: VehicleIdx| s.vehicles@.contains_key(u) && s.listed_ok(u) && #[trigger] s1.vehicles@.contains_key(u) implies s1.listed_ok(u) by {
+        let tu = s.type_of(u);
+        assert(s1.type_of(u) == tu);
+        if s.whole_tour(segment, v) {
+            assert(s.vehicle_gone_c(v, s1.vehicles@, s1.tours@, g1));
+            assert(g1 == g0.insert(ty, g1[ty]));
+            if tu == ty {
+                assert(u != v);
+                lemma_lose_keeps(s.listing(ty), g1[ty]@, v, u);
+            } else {
+                assert(g1.contains_key(tu) && g1[tu] == g0[tu]);
+            }
+        } else {
+            assert(g1 == g0);
+        }
+    }
+}
+
+// ---- rs_ok -------------------------------------------------------------------------------------------------
+/// CLOSURE, the whole bundle: under A-listing (listing_exact) and the magnitude hypothesis on the result's costs (it holds in the
+/// whole-tour case: the costs shrink) the result satisfies rs_ok again
+pub proof fn lemma_closure_rs_ok(s: &Schedule, segment: Segment, v: VehicleIdx, s1: &Schedule)
+    requires s.rs_ok(), s.rs_effect(segment, v, s1), listing_exact(s1), s1.costs <= sched_cost_bound(),
+    ensures s1.rs_ok(),
+{
+    hide(Schedule::transitions_follow);
+    hide(Schedule::formations_follow);
+    hide(Schedule::formations_ok);
+    hide(Schedule::transitions_ok);
+    hide(Schedule::so_vehicles);
+    hide(Schedule::so_listing);
+    hide(Schedule::so_costs_cover);
+    hide(listing_exact);
+    lemma_closure_vehicles(s, segment, v, s1);
+    lemma_closure_formations(s, segment, v, s1);
+    lemma_closure_transitions(s, segment, v, s1);
+    lemma_closure_listing(s, segment, v, s1);
+    lemma_sched_ok_split(s1);
+}
+/// the closure clauses for every result that the effect clauses of the contract describe (the form the body of
+/// remove_segment uses: both of its exits -- the delegation to replace_vehicle_by_dummy and Schedule::new -- are tails)
+pub proof fn lemma_closure(s: &Schedule, segment: Segment, v: VehicleIdx)
+    requires s.rs_ok(),
+    ensures
+        forall|s1: Schedule| #![trigger s1.so_network()] #![trigger s1.so_vehicles()] #![trigger s1.formations_ok()] #![trigger s1.transitions_ok()] #![trigger s.listings_kept(&s1)]
+            s.rs_effect(segment, v, &s1) ==> s1.so_network() && s1.so_vehicles() && s1.formations_ok() && s1.transitions_ok() && s.listings_kept(&s1),
+        forall|s1: Schedule| #![trigger s1.so_listing()] #![trigger s1.so_costs_cover()] #![trigger s1.rs_ok()]
+            s.rs_effect(segment, v, &s1) && listing_exact(&s1)
+                ==> s1.so_listing() && s1.so_costs_cover() && (s1.costs <= sched_cost_bound() ==> s1.rs_ok()),
+        forall|s1: Schedule| s.rs_effect(segment, v, &s1) && #[trigger] s.listing_follows(segment, v, &s1) ==> listing_exact(&s1),
+{
+    hide(Schedule::rs_ok);
+    hide(Schedule::rs_effect);
+    hide(Schedule::formations_ok);
+    hide(Schedule::transitions_ok);
+    hide(Schedule::so_vehicles);
+    hide(Schedule::so_listing);
+    hide(Schedule::so_costs_cover);
+    hide(Schedule::so_network);
+    hide(Schedule::listing_follows);
+    hide(Schedule::listings_kept);
+    hide(listing_exact);
+    assert forall|s1: Schedule| #![trigger s1.so_network()] #![trigger s1.so_vehicles()] #![trigger s1.formations_ok()] #![trigger s1.transitions_ok()] #![trigger s.listings_kept(&s1)]
+        s.rs_effect(segment, v, &s1) implies s1.so_network() && s1.so_vehicles() && s1.formations_ok() && s1.transitions_ok() && s.listings_kept(&s1) by {
+        lemma_closure_vehicles(s, segment, v, &s1);
+        lemma_closure_formations(s, segment, v, &s1);
+        lemma_closure_transitions(s, segment, v, &s1);
+        lemma_closure_listed(s, segment, v, &s1);
+    }
+    assert forall|s1: Schedule| #![trigger s1.so_listing()] #![trigger s1.so_costs_cover()] #![trigger s1.rs_ok()]
+        s.rs_effect(segment, v, &s1) && listing_exact(&s1)
+        implies s1.so_listing() && s1.so_costs_cover() && (s1.costs <= sched_cost_bound() ==> s1.rs_ok()) by {
+        lemma_closure_listing(s, segment, v, &s1);
+        if s1.costs <= sched_cost_bound() { lemma_closure_rs_ok(s, segment, v, &s1); }
+    }
+    assert forall|s1: Schedule| s.rs_effect(segment, v, &s1) && #[trigger] s.listing_follows(segment, v, &s1) implies listing_exact(&s1) by {
+        lemma_listing_follows(s, segment, v, &s1);
+    }
 }
